@@ -17,7 +17,7 @@ RULE = ('cases = base points x (TT tensors and TT matrices) of order 2..5 with M
         'distinct = (kind, structure, rank profile, f); non-trivial = tangent space of dimension >= 2 and z not in it.')
 ASSUMPTIONS = ['real float64', 'base points of non-minimal rank are rejected by the generator (the manifold is not smooth there)']
 REQUIRED_REACH = ['manifold:riemannian_projection', 'manifold:riemannian_gradient', 'manifold:_delta2cores']
-REQUIRED_COUNTS = {'kind:tensor': 1, 'kind:operator': 1, 'projection_vs_dense_projector': 50, 'gradient_vs_dense_projector': 30, 'axiom_checks': 200}
+REQUIRED_COUNTS = {'kind:tensor': 1, 'kind:operator': 1, 'projection_vs_dense_projector': 50, 'gradient_vs_dense_projector': 30, 'axiom_checks': 200, 'moved_base_point_histories': 30}
 LINE_FUNCS = ['riemannian_projection', 'riemannian_gradient', '_delta2cores']
 
 
@@ -85,20 +85,23 @@ def run_case(case, ctx):
     key = 'manifold/' + kind
     what = '%s N=%s M=%s R=%s' % (kind, N, M, R)
     # ---- independent dense projector: tangent space = range of the Jacobian of the parametrisation ---------------------
-    leaf = [c.detach().clone().requires_grad_(True) for c in x.cores]
     numel = dx.numel()
+    dim_expected = sum(R[k] * modes[k] * R[k + 1] for k in range(d)) - sum(R[k] ** 2 for k in range(1, d))
 
     def param_to_dense(*cs):
         return contract(list(cs)).reshape(-1)
-    J = torch.autograd.functional.jacobian(param_to_dense, tuple(leaf))
-    J = torch.cat([j.reshape(numel, -1) for j in J], dim=1)
-    U, S, _ = torch.linalg.svd(J, full_matrices=False)
-    rk = int((S > 1e-10 * S[0]).sum())
-    dim_expected = sum(R[k] * modes[k] * R[k + 1] for k in range(d)) - sum(R[k] ** 2 for k in range(1, d))
-    if rk != dim_expected:
+
+    def tangent_basis(obj):
+        leaf = [c.detach().clone().requires_grad_(True) for c in obj.cores]
+        J = torch.autograd.functional.jacobian(param_to_dense, tuple(leaf))
+        J = torch.cat([j.reshape(numel, -1) for j in J], dim=1)
+        U, S, _ = torch.linalg.svd(J, full_matrices=False)
+        rk_ = int((S > 1e-10 * S[0]).sum())
+        return (U[:, :rk_], rk_) if rk_ == dim_expected else (None, rk_)
+    Q, rk = tangent_basis(x)
+    if Q is None:
         ctx.count('rejected:tangent-dimension-mismatch')
         return
-    Q = U[:, :rk]
 
     def Pd(v):
         return (Q @ (Q.T @ v.reshape(-1))).reshape(v.shape)
@@ -183,3 +186,34 @@ def run_case(case, ctx):
         ctx.viol(gkey + '/clause=differs-from-projected-euclidean-gradient', '%s: ||grad - QQ^T egrad|| = %.3e, ||egrad|| = %.3e' % (what, err, ne))
     if rk >= 2 and dn.fro(dz - dPz) > 1e-6 * nz:
         ctx.nontrivial((kind, tuple(N), tuple(M or ()), tuple(R), fkind))
+    # ---- history: the base point moves IN PLACE (documented set_core, same core sizes); projection and gradient must follow the point, not the object -----------
+    if case['seed'] % 2 == 0:
+        rr = random.Random(case['seed'] + 16)
+        ks = rr.sample(range(d), min(d, 2))
+        for k in ks:
+            newcore = gens.values(list(x.cores[k].shape), dt, 'gauss', g)
+            r = ctx.lib('set_core', lambda t, k=k, c=newcore: t.set_core(k, c), x, inplace=(x,))
+            if isinstance(r, Raised):
+                return
+        dx2 = dn.D(x)
+        dxi2 = dn.interleave_dense(dx2, d) if ttm else dx2
+        if _unfolding_ranks(dxi2, modes, 1e-10) != R[1:-1]:
+            ctx.count('rejected:moved-point-not-minimal-rank')
+            return
+        Q2, rk2 = tangent_basis(x)
+        if Q2 is None:
+            ctx.count('rejected:moved-point-tangent-dimension-mismatch')
+            return
+        ctx.count('moved_base_point_histories')
+        Pz2 = proj('z (after the base point moved)', x, z)
+        if Pz2 is not None:
+            ref2 = (Q2 @ (Q2.T @ dz.reshape(-1))).reshape(dz.shape)
+            near(dn.D(Pz2), ref2, nz, 'stale-base-point(after set_core)', 'D(P_x(z)) vs QQ^T z at the moved point')
+        gr2 = ctx.lib('riemannian_gradient', lambda p: tt.manifold.riemannian_gradient(p, f), x)
+        if isinstance(gr2, tt.TT):
+            Tl2 = dx2.clone().requires_grad_(True)
+            (eg2,) = torch.autograd.grad(fd(Tl2), Tl2)
+            ref2 = (Q2 @ (Q2.T @ eg2.reshape(-1))).reshape(eg2.shape)
+            ne2 = max(dn.fro(eg2), 1e-300)
+            if not dn.fro(dn.D(gr2) - ref2) <= 10 * TOL * ne2:
+                ctx.viol(gkey + '/clause=stale-base-point(after set_core)', '%s: gradient at the moved point differs from the projected Euclidean gradient: %.3e (||egrad||=%.3e)' % (what, dn.fro(dn.D(gr2) - ref2), ne2))
